@@ -219,3 +219,20 @@ Qed.
 
 (* more than 4300 digits: int() raises, the request is answered 416 although
    the range may be satisfiable (documented limit, not part of the theorem) *)
+
+Definition nines_4301 : str := repeat 57%N (43 * 100 + 1).
+
+(* "bytes=0-99...9" (4301 nines) on a 10-byte representation: the RFC selects
+   bytes 0-9, int() raises ValueError and the code answers None (416) *)
+Lemma digit_limit_witness :
+  exists (da db : str) (len : Z),
+    da <> [] /\ db <> [] /\ forallb is_digit da = true /\ forallb is_digit db = true /\ 0 <= len
+    /\ length db = 4301%nat
+    /\ get_first_range py_int_dec (s_bytes_eq ++ da ++ DASH :: db) len = None
+    /\ rfc_range (SFromTo (dval da) (dval db)) len = Some (0, 10).
+Proof.
+  exists [48%N], nines_4301, 10.
+  split; [discriminate|]. split; [discriminate|]. split; [reflexivity|].
+  split; [vm_compute; reflexivity|]. split; [lia|]. split; [vm_compute; reflexivity|].
+  split; vm_compute; reflexivity.
+Qed.
